@@ -858,6 +858,17 @@ example : WellFormed W₁ aSub 20 ∧ ¬ WellFormed W₁ aNothing 40 ∧ ¬ Well
 example : Accepts W₀ aSub 2 ∧ ¬ Accepts W₀ aExact 2 ∧ Accepts W₀ aExact 1 := by
   refine ⟨?_, ?_, ?_⟩ <;> simp [Accepts, aSub, aExact, RegArgs.classIds, W₀]
 
+/-- `OkArgs` (hypothesis of `C16_chosen_unique`) holds of a list of accepted registrations, and `Chosen` picks the
+later of two equal-priority registrations that both accept the class -/
+example : OkArgs [⟨aSub, 20⟩, ⟨aExact, 30⟩] ∧ Chosen W₀ [⟨aSub, 20⟩, ⟨aExact, 30⟩] 1 (some 30) := by
+  have hok : OkArgs [⟨aSub, 20⟩, ⟨aExact, 30⟩] := by
+    intro x hx
+    simp only [List.mem_cons, List.not_mem_nil, or_false] at hx
+    rcases hx with rfl | rfl
+    · exact ⟨_, rfl⟩
+    · exact ⟨_, rfl⟩
+  exact ⟨hok, chosen_of_spec W₀ _ 1 hok⟩
+
 /-- a live base: a registration into the base after the own registry has answered from the base takes effect, and the
 own registry's registrations win over the base's whatever the priorities -/
 example : run2 W₀ W₀ { cacheOn := true } { cacheOn := true }
